@@ -210,6 +210,8 @@ def shard(ctx, payload):
         elif what == 'parse':
             from checks.c06 import gen_structured
             texts = [gen_structured(rng) for _ in range(payload[1])]
+            # fields of hundreds of digits (C06's overflow cases) are beyond every JavaScript number: not the shared domain
+            texts = [t for t in texts if not re.search(r'\d{100,}', t)]
             texts = [t for t in texts if t.isascii()]
             junk = ['x', 'abc', '1:x', 'x:1', '1;2;x', '1..2', '1.2.3', '--', '1:2:3:4x', ':', ';', '', '7:', ':7', '1::2', ' ',
                     '1 2', '1,2', '1:2;3']
